@@ -551,7 +551,7 @@ func (w *world) subEnd() {
 	select {
 	case r = <-win.res:
 	case <-time.After(opTimeout):
-		r = "HANG"
+		r = "HANG" + blockedIn()
 	}
 	if r != "" {
 		w.o.op(opText, r)
@@ -599,7 +599,7 @@ func (w *world) emit(e ev, det bool) {
 		w.o.op("emit "+e.String(), "ok")
 		w.o.hit("emit.ok")
 	case <-time.After(opTimeout):
-		w.o.op("emit "+e.String(), "HANG")
+		w.o.op("emit "+e.String(), "HANG"+blockedIn())
 		w.stalled = true
 		return
 	}
